@@ -8,8 +8,9 @@
 //   to_canonical : Some(c) <=> member; c.counter < len; strictly monotone on members
 //   from_canonical(to_canonical(u)) == u for members; to_canonical(from_canonical(c)) == Some(c) for c < len
 //   c >= len : from_canonical(c) is above every member and strictly monotone in c   (pre: no usize overflow)
-// Complete in the universe values (symbolic usize); BOUNDED in the number of
-// universes added (2 quick / 4 thorough, i.e. vector length <= 3 / 5).
+// Invariant style: `new` establishes wf; `add` preserves it for EVERY wf map; the laws hold for EVERY wf
+// map.  Complete in the universe values (symbolic usize); BOUNDED in the vector length (<= 3 universes;
+// `add` on 3 universes only in the thorough tier).
 use super::*;
 
 fn wf(m: &UniverseMap) -> bool {
@@ -38,29 +39,67 @@ fn member(m: &UniverseMap, u: UniverseIndex) -> bool {
     false
 }
 
-fn build(n: usize) -> UniverseMap {
-    let mut m = UniverseMap::new();
-    assert!(wf(&m) && member(&m, UniverseIndex::ROOT) && m.universes.len() == 1);
-    let mut k = 0;
-    while k < n {
-        let u = UniverseIndex { counter: kani::any() };
-        let probe = UniverseIndex { counter: kani::any() };
-        let was_member = member(&m, probe);
-        let old_len = m.universes.len();
-        m.add(u);
-        assert!(wf(&m), "add keeps the vector strictly increasing and rooted");
-        assert!(member(&m, u), "the added universe is a member");
-        assert!(probe == u || member(&m, probe) == was_member, "no other universe appears or disappears");
-        assert!(m.universes.len() == old_len || m.universes.len() == old_len + 1);
-        k += 1;
-    }
+/// any well-formed map with exactly `n` universes (values symbolic)
+fn any_wf_map(n: usize) -> UniverseMap {
+    let a: usize = kani::any();
+    let b: usize = kani::any();
+    kani::assume(0 < a && a < b);
+    let r = UniverseIndex::ROOT;
+    let universes = match n {
+        1 => vec![r],
+        2 => vec![r, UniverseIndex { counter: a }],
+        _ => vec![r, UniverseIndex { counter: a }, UniverseIndex { counter: b }],
+    };
+    let m = UniverseMap { universes };
+    assert!(wf(&m));
     m
 }
 
+/// `new` establishes the invariant
+#[kani::proof]
+#[kani::unwind(5)]
+fn k8_new_is_wf() {
+    let m = UniverseMap::new();
+    assert!(wf(&m) && member(&m, UniverseIndex::ROOT) && m.universes.len() == 1);
+}
+
+/// `add` preserves the invariant and adds exactly the given universe (for every wf map of <= 3 universes)
+fn add_contract(n: usize) {
+    let mut m = any_wf_map(n);
+    let u = UniverseIndex { counter: kani::any() };
+    let probe = UniverseIndex { counter: kani::any() };
+    let was_member = member(&m, probe);
+    let u_was_member = member(&m, u);
+    m.add(u);
+    assert!(wf(&m), "add keeps the vector strictly increasing and rooted");
+    assert!(member(&m, u), "the added universe is a member");
+    assert!(probe == u || member(&m, probe) == was_member, "no other universe appears or disappears");
+    assert!(m.universes.len() == if u_was_member { n } else { n + 1 });
+    kani::cover!(u_was_member);
+    kani::cover!(!u_was_member && m.universes[n].counter == u.counter); // appended at the end
+    kani::cover!(n < 2 || (!u_was_member && m.universes[1].counter == u.counter)); // inserted in the middle
+}
+
+#[kani::proof]
+#[kani::unwind(6)]
+fn k8_add_len1() {
+    add_contract(1);
+}
+#[kani::proof]
+#[kani::unwind(6)]
+fn k8_add_len2() {
+    add_contract(2);
+}
+#[kani::proof]
+#[kani::unwind(6)]
+fn k8_add_len3_thorough() {
+    add_contract(3);
+}
+
+/// the mapping laws, for every wf map of n universes
 fn laws(n: usize) {
-    let m = build(n);
+    let m = any_wf_map(n);
     let len = m.universes.len();
-    kani::cover!(len == n + 1);
     let u = UniverseIndex { counter: kani::any() };
     let v = UniverseIndex { counter: kani::any() };
     let cu = m.map_universe_to_canonical(u);
@@ -98,12 +137,16 @@ fn laws(n: usize) {
 
 #[kani::proof]
 #[kani::unwind(6)]
-fn k8_universe_map_2adds() {
+fn k8_laws_len1() {
+    laws(1);
+}
+#[kani::proof]
+#[kani::unwind(6)]
+fn k8_laws_len2() {
     laws(2);
 }
-
 #[kani::proof]
-#[kani::unwind(8)]
-fn k8_universe_map_4adds_thorough() {
-    laws(4);
+#[kani::unwind(6)]
+fn k8_laws_len3() {
+    laws(3);
 }
